@@ -1,8 +1,13 @@
 (* Extraction of the executable query models (engine "query", property C13).
-   ExtrOcamlBasic only; nat, N, positive stay extracted inductives. No Extract Constant. *)
+   ExtrOcamlBasic only; nat, N, Z, positive stay extracted inductives. No Extract Constant.
+   Besides the matchers and the filter stages, the IR model's init/step (to rebuild netlists from
+   `ir` op histories) and the whole queries of Query/Enum.v (candidate enumeration + stages). *)
 From Coq Require Extraction ExtrOcamlBasic.
-From SV Require Import Base.Base Query.Glob Query.Regex Query.Patterns Query.Filter.
+From SV Require Import Base.Base IR.State IR.NS IR.Ops Hier.Paths Hier.Enum Hier.Trace
+  Query.Glob Query.Regex Query.Patterns Query.Filter Query.Enum.
 Extraction Language OCaml.
 Extraction "query_model.ml" value_matches is_pattern_absolute glob_match escape_brackets fnmatchcase
   parse_re rmatch regex_escape regex_prefix re_escape_str lower
-  scan_lookup lookup_lower lookup_none run_query run_netlists run_hier.
+  Filter.scan_lookup lookup_lower lookup_none run_query run_netlists run_hier
+  State.init Ops.step
+  query_instances query_definitions query_libraries query_ports query_netlists query_pins query_cables query_wires.
